@@ -1,128 +1,56 @@
-// c14 multiarch stage: the real multi-architecture entry point
-// (build.NewMultiArch + BuildPackageLists, i.e. APK.ResolveWorld with its ByArch
-// siblings) on families of per-architecture repositories that have drifted
-// apart, reached as local directories, over HTTP with an ETag and over HTTP
-// WITHOUT one (then nothing is cached and every load parses the index afresh).
-// Observed: each architecture's install list. Judged in Coq by the verified
-// validator foreign_check: no member may be missing from another architecture.
+// c14 harness.
+//
+// stage multiarch: the real multi-architecture entry point (build.NewMultiArch,
+// every context's APK.ResolveWorld with its ByArch siblings, and
+// MultiArch.BuildPackageLists) on families of per-architecture repositories
+// that have drifted apart, reached as local directories, over HTTP with an ETag
+// and over HTTP WITHOUT one (then nothing is cached and every load parses the
+// index afresh). Observed: every context's ByArch map, every architecture's
+// install list, the joined answer. Compared in Coq with Model/MultiArch.v and
+// judged by the verified validator foreign_check.
+//
+// stage dqcache: histories of two or three multi-architecture resolutions in
+// one process through the library API (NewPkgResolver +
+// GetPackagesWithDependencies(allArchs)) over a pool of index objects; observed
+// per call: the answer, the set the disqualification cache holds under the
+// call's key, and the uncached disqualifyDifference with its messages.
 package main
 
 import (
-	"context"
 	"flag"
 	"fmt"
 	"io"
 	"log/slog"
-	"net/http"
-	"net/http/httptest"
 	"os"
-	"path/filepath"
-	"sort"
 	"strings"
-
-	"chainguard.dev/apko/pkg/apk/apk"
-	"chainguard.dev/apko/pkg/build"
-	"chainguard.dev/apko/pkg/build/types"
 
 	"verifharness/gal"
 )
 
+// one package of a synthetic index
+type pkgT struct {
+	Name      string   `json:"n"`
+	Version   string   `json:"v"`
+	Deps      []string `json:"d,omitempty"`
+	Provides  []string `json:"p,omitempty"`
+	InstallIf []string `json:"i,omitempty"`
+	Prio      uint64   `json:"prio,omitempty"`
+}
+
+func galPkg(p pkgT, pin, uri string) string {
+	return fmt.Sprintf("(P %s %s %s %s %s %s %s %s %s)", gal.Str(p.Name), gal.Str(p.Version), gal.Str(p.Name),
+		gal.StrList(p.Deps), gal.StrList(p.Provides), gal.StrList(p.InstallIf), gal.N(p.Prio), gal.Str(pin), gal.Str(uri))
+}
+
+func galIndex(id int, pin, uri string, pkgs []pkgT) string {
+	it := make([]string, len(pkgs))
+	for i, p := range pkgs {
+		it[i] = galPkg(p, pin, uri)
+	}
+	return fmt.Sprintf("(NI %s %s [%s])", gal.Nat(id), gal.Str(pin), strings.Join(it, ";\n        "))
+}
+
 type nv struct{ Name, Version string }
-
-type family struct {
-	Archs     []string            `json:"archs"`
-	Universe  map[string][]nv     `json:"universe"` // arch -> packages
-	Deps      map[string][]string `json:"deps"`
-	World     []string            `json:"world"`
-	Transport string              `json:"transport"`
-	Note      string              `json:"note,omitempty"`
-}
-
-func writeRepo(dir string, arch types.Architecture, pkgs []nv, deps map[string][]string) error {
-	idx := &apk.APKIndex{Description: "c14 " + arch.ToAPK()}
-	for _, p := range pkgs {
-		idx.Packages = append(idx.Packages, &apk.Package{Name: p.Name, Version: p.Version, Arch: arch.ToAPK(), Dependencies: deps[p.Name],
-			Checksum: []byte(fmt.Sprintf("%-20.20s", arch.ToAPK()+p.Name+p.Version))})
-	}
-	archive, err := apk.ArchiveFromIndex(idx)
-	if err != nil {
-		return err
-	}
-	b, err := io.ReadAll(archive)
-	if err != nil {
-		return err
-	}
-	d := filepath.Join(dir, arch.ToAPK())
-	if err := os.MkdirAll(d, 0o755); err != nil {
-		return err
-	}
-	return os.WriteFile(filepath.Join(d, "APKINDEX.tar.gz"), b, 0o644)
-}
-
-type obs struct {
-	Arch string
-	Err  string
-	List []nv
-}
-
-func run(tmp string, n int, f *family) ([]obs, error) {
-	dir := filepath.Join(tmp, fmt.Sprintf("fam%d", n))
-	archs := types.ParseArchitectures(f.Archs)
-	for _, a := range archs {
-		if err := writeRepo(dir, a, f.Universe[a.String()], f.Deps); err != nil {
-			return nil, err
-		}
-	}
-	repo := dir
-	var srv *httptest.Server
-	if f.Transport != "local" {
-		fsrv := http.FileServer(http.Dir(dir))
-		etag := f.Transport == "http-etag"
-		srv = httptest.NewServer(http.HandlerFunc(func(w http.ResponseWriter, r *http.Request) {
-			if etag {
-				w.Header().Set("ETag", fmt.Sprintf(`"fam%d"`, n))
-			}
-			fsrv.ServeHTTP(w, r)
-		}))
-		defer srv.Close()
-		repo = srv.URL
-	}
-	ic := types.ImageConfiguration{Contents: types.ImageContents{RuntimeRepositories: []string{repo}, Packages: f.World}, Archs: archs}
-	cache := filepath.Join(tmp, fmt.Sprintf("cache%d", n))
-	ctx := context.Background()
-	var out []obs
-	var lists map[types.Architecture][]*apk.RepositoryPackage
-	var err error
-	func() {
-		defer func() {
-			if x := recover(); x != nil {
-				err = fmt.Errorf("panic: %v", x)
-				fmt.Printf("IMPL-VIOLATION tag=panic-multiarch {\"family\":%d,\"panic\":%q}\n", n, fmt.Sprint(x))
-			}
-		}()
-		var mc *build.MultiArch
-		mc, err = build.NewMultiArch(ctx, archs, build.WithImageConfiguration(ic), build.WithIgnoreSignatures(true), build.WithCache(cache, false, apk.NewCache(false)))
-		if err != nil {
-			return
-		}
-		lists, err = mc.BuildPackageLists(ctx)
-	}()
-	for _, a := range archs {
-		o := obs{Arch: a.String()}
-		if err != nil {
-			o.Err = err.Error()
-			if len(o.Err) > 200 {
-				o.Err = o.Err[:200]
-			}
-		} else {
-			for _, p := range lists[a] {
-				o.List = append(o.List, nv{p.Name, p.Version})
-			}
-		}
-		out = append(out, o)
-	}
-	return out, nil
-}
 
 func galNVs(l []nv) string {
 	var s []string
@@ -132,124 +60,36 @@ func galNVs(l []nv) string {
 	return gal.List(s)
 }
 
+func clonePkgs(l []pkgT) []pkgT { return append([]pkgT(nil), l...) }
+
+func without(l []pkgT, name, version string) []pkgT {
+	var o []pkgT
+	for _, x := range l {
+		if !(x.Name == name && x.Version == version) {
+			o = append(o, x)
+		}
+	}
+	return o
+}
+
 func main() {
 	out := flag.String("out", "", "cases dir")
 	seed := flag.Uint64("seed", 1, "seed")
 	tier := flag.String("tier", "quick", "tier")
-	flag.String("stage", "multiarch", "multiarch")
-	flag.String("replay", "", "unused")
+	stage := flag.String("stage", "multiarch", "multiarch|dqcache")
+	flag.String("replay", "", "unused: cases are regenerated from the seed")
 	flag.Parse()
 	slog.SetDefault(slog.New(slog.NewTextHandler(io.Discard, nil)))
-	tmp, err := os.MkdirTemp("", "c14-")
+	var err error
+	switch *stage {
+	case "multiarch":
+		err = stageMultiarch(*out, *seed, *tier)
+	case "dqcache":
+		err = stageDqcache(*out, *seed, *tier)
+	default:
+		err = fmt.Errorf("unknown stage %q", *stage)
+	}
 	if err != nil {
-		panic(err)
-	}
-	defer os.RemoveAll(tmp)
-	r := gal.NewRand(*seed ^ 0xC14)
-	wr := &gal.Writer{Dir: *out, Require: "From Apko Require Import Corr.C14.", Type: "mcase", Check: "check_multiarch", Shard: 200}
-	allArchs := []string{"amd64", "arm64", "arm/v7", "arm/v6", "riscv64", "s390x"}
-	deps := map[string][]string{"app": {"lib", "tool"}, "tool": {"libtool"}, "svc": {"lib>1"}}
-	base := func() []nv {
-		return []nv{{"app", "1.0-r0"}, {"lib", "1.0-r0"}, {"lib", "2.0-r0"}, {"lib", "2.0-r1"}, {"tool", "0.9-r0"}, {"tool", "1.0-r0"}, {"libtool", "1.0-r0"}, {"libtool", "1.1-r0"}, {"svc", "3.0-r0"}, {"svc", "3.1-r0"}}
-	}
-	without := func(l []nv, name, version string) []nv {
-		var o []nv
-		for _, x := range l {
-			if !(x.Name == name && x.Version == version) {
-				o = append(o, x)
-			}
-		}
-		return o
-	}
-	n := 0
-	add := func(f *family, class string) {
-		o, err := run(tmp, n, f)
-		n++
-		if err != nil {
-			fmt.Fprintln(os.Stderr, "c14:", err)
-			os.Exit(2)
-		}
-		var as, os_ []string
-		for _, a := range f.Archs {
-			as = append(as, gal.Pair(gal.Str(a), galNVs(f.Universe[a])))
-		}
-		for _, x := range o {
-			os_ = append(os_, gal.Pair(gal.Str(x.Arch), gal.Opt(x.Err == "", galNVs(x.List))))
-		}
-		term := fmt.Sprintf("{| m_archs := %s; m_transport := %s; m_obs := %s |}", gal.List(as), gal.Str(f.Transport), gal.List(os_))
-		wr.Add(gal.Case{Term: term, Class: class + "/" + f.Transport + fmt.Sprintf("/%d-archs", len(f.Archs)), Desc: map[string]any{"family": f, "observed": o}})
-	}
-	transports := []string{"local", "http-etag", "http-noetag"}
-	// ---- corpus ---------------------------------------------------------------
-	for _, tr := range transports {
-		for _, lag := range []int{0, 1} {
-			archs := []string{"amd64", "arm64"}
-			u := map[string][]nv{}
-			for i, a := range archs {
-				u[a] = base()
-				if i == lag {
-					u[a] = without(without(u[a], "lib", "2.0-r1"), "lib", "2.0-r0")
-				}
-			}
-			add(&family{Archs: archs, Universe: u, Deps: deps, World: []string{"app"}, Transport: tr,
-				Note: "C14-F2 (fixed): newest lib missing on one architecture; over HTTP without an ETag the own indexes were parsed twice and the filter matched nothing"}, "corpus")
-		}
-		// both 32-bit ARM variants, each lagging in its own way
-		archs := []string{"amd64", "arm/v6", "arm/v7"}
-		u := map[string][]nv{"amd64": base(), "arm/v6": without(base(), "lib", "2.0-r1"), "arm/v7": without(base(), "tool", "1.0-r0")}
-		add(&family{Archs: archs, Universe: u, Deps: deps, World: []string{"app", "svc"}, Transport: tr, Note: "armhf and armv7 together"}, "corpus")
-		add(&family{Archs: []string{"arm/v6", "arm/v7"}, Universe: map[string][]nv{"arm/v6": without(base(), "libtool", "1.1-r0"), "arm/v7": base()}, Deps: deps, World: []string{"tool"}, Transport: tr, Note: "only the two ARM variants"}, "corpus")
-		// three architectures, one lagging, rotating
-		for lag := 0; lag < 3; lag++ {
-			archs := []string{"amd64", "arm64", "riscv64"}
-			u := map[string][]nv{}
-			for i, a := range archs {
-				u[a] = base()
-				if i == lag {
-					u[a] = without(u[a], "lib", "2.0-r1")
-				}
-			}
-			add(&family{Archs: archs, Universe: u, Deps: deps, World: []string{"lib", "app"}, Transport: tr, Note: "three architectures, one lagging"}, "corpus")
-		}
-		add(&family{Archs: []string{"amd64"}, Universe: map[string][]nv{"amd64": base()}, Deps: deps, World: []string{"app"}, Transport: tr, Note: "single architecture"}, "corpus")
-	}
-	// ---- generated families -----------------------------------------------------
-	ng := 40
-	if *tier == "thorough" {
-		ng = 600
-	}
-	worlds := [][]string{{"app"}, {"lib"}, {"svc", "tool"}, {"app", "svc"}, {"libtool", "lib<2.0-r1"}}
-	for i := 0; i < ng; i++ {
-		k := 2 + r.Intn(3)
-		perm := append([]string{}, allArchs...)
-		for a := len(perm) - 1; a > 0; a-- {
-			b := r.Intn(a + 1)
-			perm[a], perm[b] = perm[b], perm[a]
-		}
-		archs := perm[:k]
-		sort.Strings(archs)
-		u := map[string][]nv{}
-		for _, a := range archs {
-			l := base()
-			for m := r.Intn(3); m > 0; m-- {
-				v := l[r.Intn(len(l))]
-				if v.Name == "app" {
-					continue
-				}
-				switch r.Intn(3) {
-				case 0:
-					l = without(l, v.Name, v.Version)
-				case 1:
-					l = append(l, nv{v.Name, strings.Replace(v.Version, "-r", "_p1-r", 1)}) // newer build only here
-				case 2:
-					l = append(l, nv{"only-" + strings.ReplaceAll(a, "/", ""), "1.0-r0"})
-				}
-			}
-			u[a] = l
-		}
-		add(&family{Archs: archs, Universe: u, Deps: deps, World: gal.Pick(r, worlds), Transport: gal.Pick(r, transports)}, "generated")
-	}
-	if err := wr.Flush(); err != nil {
 		fmt.Fprintln(os.Stderr, "c14:", err)
 		os.Exit(2)
 	}
